@@ -132,7 +132,10 @@ ROUntouched(cfg, s, e, s2) ==
                     i # "DIR" /\ i \in DOMAIN s.fs.inos /\ i \in DOMAIN s2.fs.inos => SameButAtime(s.fs.inos[i], s2.fs.inos[i])
 
 \* ---- C16: names are validated; effects are confined
-InvalidName(n) == Len(n) = 0 \/ FirstChar(n) \in {".", "/", "\\"}
+\* Names that can never denote one regular file directly inside the cache directory: empty, reserved first byte,
+\* or containing a path separator (such a name would address another directory or a sub-directory).
+HasSlash(n) == \E i \in 1..Len(n) : SubSeq(n, i, i) = "/"
+InvalidName(n) == Len(n) = 0 \/ FirstChar(n) \in {".", "/", "\\"} \/ HasSlash(n)
 CurKey(s, p) == IF p \in DOMAIN s.cur /\ Has(s.cur[p], "key") THEN s.cur[p].key ELSE ""
 AllowedTarget(cfg, s, e, pth) ==
     \/ Outside(pth) /\ FALSE
